@@ -146,12 +146,10 @@ Proof.
 Qed.
 
 (* Swarm.Close returns *)
-Lemma vcheck_closeret cap vo bo ss ss' : sexec cap vo bo ss -> sstep cap ss (XS SCloseRet) = Some ss' ->
-  vcheck VCloseRet vo = [].
+Lemma vcheck_waited cap vo bo ss : sexec cap vo bo ss -> xwaited (x_pc ss) = true -> vcheck VCloseRet vo = [].
 Proof.
-  intros He Hs. inv_sstep Hs. unfold vcheck.
+  intros He Hw. unfold vcheck.
   destruct (proj_inv _ _ _ _ He) as [J1 J2 J3 J4 _].
-  assert (Hw : xwaited (x_pc ss) = true) by (rewrite Heqx; reflexivity).
   assert (A : forall c, c < nconns (base ss) ->
             cnt (ConnB c) bo = 1 /\ cnt (ConnE c) bo = 1 /\ cnt (DiscB c) bo = 1 /\ cnt (DiscE c) bo = 1).
   { intros c Hc. destruct (all_done _ _ _ _ c He Hw Hc) as [E1 E2]. eapply done_counts; eauto. }
@@ -174,4 +172,16 @@ Proof.
     - destruct (A c Hc) as (-> & -> & -> & ->). reflexivity.
     - destruct (B c Hc) as (-> & -> & -> & ->). reflexivity. }
   rewrite E1, E2. reflexivity.
+Qed.
+
+Lemma vcheck_closeret cap vo bo ss ss' : sexec cap vo bo ss -> sstep cap ss (XS SCloseRet) = Some ss' ->
+  vcheck VCloseRet vo = [].
+Proof. intros He Hs. inv_sstep Hs. eapply vcheck_waited; [exact He|rewrite Heqx; reflexivity]. Qed.
+
+(* a further Swarm.Close call returns: the same *)
+Lemma vcheck_close2ret cap vo bo ss ss' : sexec cap vo bo ss -> sstep cap ss (XS SClose2Ret) = Some ss' ->
+  vcheck VClose2Ret vo = [].
+Proof.
+  intros He Hs. inv_sstep Hs; change (vcheck VClose2Ret vo) with (vcheck VCloseRet vo);
+    (eapply vcheck_waited; [exact He|rewrite Heqx; reflexivity]).
 Qed.
